@@ -22,9 +22,12 @@ type zzTransport struct {
 	isClosed bool
 	closes   int
 	written  [][]byte
-	times    []int64 // logical time of each write
-	name     string
-	reads    int
+	times    []int64 // logical time at which each write completed
+	// slowWrites: the next n writes each take writeDelay (a peer slow to drain the transport)
+	slowWrites int
+	writeDelay time.Duration
+	name       string
+	reads      int
 }
 
 func zzNewTransport(name string) *zzTransport {
@@ -55,6 +58,10 @@ func (t *zzTransport) Read(p []byte) (int, error) {
 func (t *zzTransport) Write(p []byte) (int, error) {
 	if t.isClosed {
 		return 0, &zzTransErr{"zz: write on closed connection"}
+	}
+	if t.slowWrites > 0 {
+		t.slowWrites--
+		time.Sleep(t.writeDelay)
 	}
 	t.written = append(t.written, append([]byte(nil), p...))
 	t.times = append(t.times, vNow())
